@@ -4,8 +4,9 @@ From C17 Require Import Generated Model Proofs Inflight.
 Import ListNotations.
 Open Scope Z_scope.
 
-(* use_fsync reaches _write_file: True at the KeyValueStorage.set call site AND passed on along every call path (regenerated) *)
-Definition write_synced : bool := kvs_use_fsync && use_fsync_on_every_write_path.
+(* use_fsync reaches _write_file: True at the KeyValueStorage.set call site, passed on along every call path, and every
+   update_file call of a non-busy entry really submits the write (no "contents unchanged" shortcut) (all regenerated) *)
+Definition write_synced : bool := kvs_use_fsync && use_fsync_on_every_write_path && update_always_writes.
 
 (* T17.sound + complete — the verified checker decides crash safety of a (recorded or generated) trace of a
    sequence of sets: check_crash accepts it IFF at every crash point and for every allowed loss (name lost,
